@@ -92,7 +92,7 @@ def opLower (j : Json) : Json :=
     let body ← (← jArr (← j.getObjVal? "body")).toList.mapM stmtOfJson
     -- `bad`: the hypothesis of C08.reject_at_any_depth, evaluated on this program
     match lowerFull cfg sym body with
-    | .ok e => pure (Json.mkObj [("ok", exprToJson e), ("bad", .bool (badModule body))])
+    | .ok e => pure (Json.mkObj [("ok", exprToJson e), ("bad", .bool (badModule body)), ("wf", .bool (wfEB e))])
     | .error err => pure (Json.mkObj [("err", .str err.cls), ("bad", .bool (badModule body))])
   match r with
   | .ok j => j
